@@ -157,7 +157,7 @@ func VerifC06InVsDisjunction() {
 // keep the digit-count fork of FormatInt small.
 func VerifC06HashInVsIn() {
 	lt := nd.Pick("xtype", 3)
-	n := nd.IntRange("n", 1, nd.Bound(2, 3))
+	n := nd.IntRange("n", 1, 2) // (3 literals left final queries undecided at the thorough tier)
 	lim := int64(nd.Bound(10000, 100000))
 	x, xc := c06Left(lt)
 	switch v := xc.(type) {
